@@ -2,7 +2,12 @@ package main
 
 import (
 	"bytes"
+	"fmt"
 	"io"
 )
 
 func bytesReader(b []byte) io.Reader { return bytes.NewReader(b) }
+
+func sscanHex3(s string, a, b, c *uint64) (int, error) {
+	return fmt.Sscanf(s, "%016x/%016x/%016x", a, b, c)
+}
